@@ -494,6 +494,7 @@ func (g *fgen) run() {
 	g.entry = &state{heap: map[string]string{}, epoch: 0, alloc: "alloc0"}
 	g.bindParams()
 	g.findLoops()
+	g.findLocalArrays()
 	g.setupGinvs()
 	g.setupGuards()
 	g.assumeGinvs(g.entry)
